@@ -355,3 +355,37 @@ func (p *Program) verifyLemma(l *Lemma) *UnitResult {
 }
 
 var _ = token.NoPos
+
+// checkLitRequires: where a function literal that is a verification unit of
+// its own is started (go statement), its requires clauses are obligations of
+// the enclosing function, evaluated with the literal's parameters bound to the
+// actual arguments and captured variables read from the current state.
+func (x *Exec) checkLitRequires(st *State, lit *ast.FuncLit, args []T, how string) {
+	fr := x.frame()
+	if fr.contract == nil || fr.specScope == nil {
+		return
+	}
+	n := fr.specScope.litOrd[lit]
+	lc := fr.contract.Lits[n]
+	if lc == nil || len(lc.Requires) == 0 {
+		return
+	}
+	env := x.bodySpecEnv(st, lit.Body)
+	env.pos = lit.Body.Lbrace + 1
+	// parameters of the literal shadow everything
+	i := 0
+	if lit.Type.Params != nil {
+		for _, fld := range lit.Type.Params.List {
+			for _, nm := range fld.Names {
+				if i < len(args) {
+					env.vars[nm.Name] = args[i]
+				}
+				i++
+			}
+		}
+	}
+	for k, r := range lc.Requires {
+		t := x.specEval(st, r.Expr, env)
+		x.oblige(st, fmt.Sprintf("%s-lit%d/pre#%d", how, n, k+1), "pre", t.S, lit)
+	}
+}
